@@ -26,7 +26,7 @@ def layouts():
 
 def gen_cases(tier, seed):
     rng = random.Random(seed * 15485863 + 3)
-    ncontent, npat = (2, 3) if tier == 'quick' else (4, 12)
+    ncontent, npat = (2, 3) if tier == 'quick' else (8, 30)
     cases = []
     for (v, lv) in layouts():
         for i in range(ncontent):
